@@ -201,6 +201,65 @@ fn containers(case: &Case, reference: &[u8], ev: &mut Ev, tmp: &std::path::Path)
         }
     };
     one("prefilled-vec", guard(|| build_on(kv, fe, vec![0xEEu8; 37], &|| None)), 37);
+    // get_ref(): the writer seen through the builder holds exactly prefix + bytes_written() bytes after every call, and
+    // those bytes are a prefix of the final result
+    one(
+        "get_ref-on-prefilled-vec",
+        guard(|| {
+            let mut seen: Vec<(usize, Vec<u8>)> = vec![];
+            let bytes = match fe % 3 {
+                0 => {
+                    let mut b = Builder::new(vec![0xEEu8; 9]).map_err(|e| e.to_string())?;
+                    for (k, v) in kv.iter() {
+                        b.insert(k, *v).map_err(|e| e.to_string())?;
+                        if b.get_ref().len() as u64 != 9 + b.bytes_written() {
+                            return Err(format!("get_ref() shows {} bytes but bytes_written() = {} (+9 prefilled)", b.get_ref().len(), b.bytes_written()));
+                        }
+                        if seen.len() < 8 {
+                            seen.push((b.get_ref().len(), b.get_ref()[b.get_ref().len().saturating_sub(8)..].to_vec()));
+                        }
+                    }
+                    b.into_inner().map_err(|e| e.to_string())?
+                }
+                1 => {
+                    let mut b = MapBuilder::new(vec![0xEEu8; 9]).map_err(|e| e.to_string())?;
+                    for (k, v) in kv.iter() {
+                        b.insert(k, *v).map_err(|e| e.to_string())?;
+                        if b.get_ref().len() as u64 != 9 + b.bytes_written() {
+                            return Err(format!("MapBuilder::get_ref() shows {} bytes but bytes_written() = {} (+9 prefilled)", b.get_ref().len(), b.bytes_written()));
+                        }
+                        if seen.len() < 8 {
+                            seen.push((b.get_ref().len(), b.get_ref()[b.get_ref().len().saturating_sub(8)..].to_vec()));
+                        }
+                    }
+                    b.into_inner().map_err(|e| e.to_string())?
+                }
+                _ => {
+                    if kv.iter().any(|(_, v)| *v != 0) {
+                        return build_on(kv, 0, vec![0xEEu8; 9], &|| None);
+                    }
+                    let mut b = SetBuilder::new(vec![0xEEu8; 9]).map_err(|e| e.to_string())?;
+                    for (k, _) in kv.iter() {
+                        b.insert(k).map_err(|e| e.to_string())?;
+                        if b.get_ref().len() as u64 != 9 + b.bytes_written() {
+                            return Err(format!("SetBuilder::get_ref() shows {} bytes but bytes_written() = {} (+9 prefilled)", b.get_ref().len(), b.bytes_written()));
+                        }
+                        if seen.len() < 8 {
+                            seen.push((b.get_ref().len(), b.get_ref()[b.get_ref().len().saturating_sub(8)..].to_vec()));
+                        }
+                    }
+                    b.into_inner().map_err(|e| e.to_string())?
+                }
+            };
+            for (len, tail) in &seen {
+                if bytes.len() < *len || bytes[len - tail.len()..*len] != tail[..] {
+                    return Err("bytes seen through get_ref() during the build are not a prefix of the final result".into());
+                }
+            }
+            Ok(bytes)
+        }),
+        9,
+    );
     for cap in [1usize, 7, 8192].iter() {
         one(&format!("bufwriter-{}", cap), guard(|| build_on(kv, fe, BufWriter::with_capacity(*cap, Vec::new()), &|| None).and_then(|w| w.into_inner().map_err(|e| e.to_string()))), 0);
     }
